@@ -8,6 +8,7 @@
    an oracle whose output is certified per run on exact rationals (props/c13.py). *)
 From Coq Require Import List Reals.
 From ML Require Import Ops Vec VecR MatR LinAlg SDML C13Proof.
+From ML Require Import PinsC13.
 Import ListNotations.
 Open Scope R_scope.
 
@@ -23,3 +24,7 @@ Definition C13_statement : Prop :=
 Theorem C13_partial : C13_statement.
 Proof. exact (conj emp_cov_form (conj vetting_spec kkt_entry_stationary)). Qed.
 Print Assumptions C13_partial.
+
+(* text-level tie: the functions this property's hand-written model and harness were written from are unchanged
+   (digests regenerated from /repo on every run; Proofs/PinsC13.v) *)
+Definition C13_source_pins := pins_C13_ok.
